@@ -47,7 +47,7 @@ def simplify_events(ck, terms, env, id0=0, tag=""):
             continue
         try:
             o = f.simplify()
-            ev = {"id": id0 + k, "kind": "simplify", "in": term_io.export(f), "out": term_io.export(o),
+            ev = {"id": id0 + k, "kind": "simplify", "in": term_io.export(f), "out": term_io.export_result(o),
                   "rin": term_io.export_type(f.get_type()), "rout": term_io.export_type(o.get_type())}
         except term_io.Unrepresentable:
             skipped += 1
